@@ -94,6 +94,13 @@ def rule_stack(ctx):
     if pushes:
         sym = ctx.sym(mk)
         v = sym.operand(pushes[0][1]["args"][1])
+        # ... possibly handed through a helper that takes the record by value, fills in its castling rights and returns it
+        vv = mir.strip_copies(v)
+        if vv[0] == "call" and vv[1] in ix.bodies:
+            pos = C.returns_param(ix, vv[1], ("castling_rights",))
+            if pos is not None and pos - 1 < len(vv[2]) and mir.strip_copies(vv[2][pos - 1]) == ("arg", mk.local_name(2)):
+                ctx.functions.add(vv[1])
+                v = ("arg", mk.local_name(2))
         ctx.check(v == ("arg", mk.local_name(2)), "make_move:pushes-the-played-move", "the pushed record is the (completed) move argument", mk.where(pushes[0][0]),
                   bad_what="make_move pushes `%s`, not the move it played" % expr_str(v))
     # rights / clock readers go through history.last()
@@ -527,7 +534,7 @@ RULES = [("writeset", rule_writeset), ("stack", rule_stack), ("multiset", rule_m
 # the key is part of the position that unmake must restore: every make-side toggle has its unmake-side twin (C04 pairing
 # rules); and the record unmake reads the en-passant file back from must agree with the board from the first position on,
 # which for a position loaded from FEN is the synthetic record (C07.history)
-RULES += engine.premise_rules("c04", ["piece-pair", "turn-pair", "ep-pair", "castle-pair", "castle-revert"])
+RULES += engine.premise_rules("c04", ["clone", "piece-pair", "turn-pair", "ep-pair", "castle-pair", "castle-revert"])
 RULES += engine.premise_rules("c07", ["fields", "history", "build"])
 # add_piece / remove_piece set and clear Square::get_mask() in the board of Kind::get_color()
 RULES += engine.premise_rules("c01", ["leaf-accessors"])
